@@ -680,9 +680,14 @@ func (s *sender) handleRcvdSegment(seg *segment) {
 	// tcp的拥塞控制：检查是否有重复的ack，是否进入快速重传和快速恢复状态
 	rtx := s.checkDuplicateAck(seg)
 
-	// Stash away the current window size.
+	// Stash away the current window size, unless the segment is an old one
+	// that the network delivered late (RFC 793 page 72: the send window is
+	// updated only if SND.UNA =< SEG.ACK =< SND.NXT); its window is
+	// relative to an acknowledgement number we are already past.
 	// 存放当前窗口大小。
-	s.sndWnd = seg.window
+	if seg.ackNumber.InRange(s.sndUna, s.sndNxt+1) {
+		s.sndWnd = seg.window
+	}
 
 	// Ignore ack if it doesn't acknowledge any new data.
 	// 获取确认号
